@@ -10,7 +10,7 @@ from engine import Op, set_mode
 PROP = "C03"
 QUICK_BOOST = 2
 THOROUGH_EXHAUSTIVE = True   # thorough: every day of a 400-year Gregorian cycle (and 8-year windows of the fixed calendars), all six conversions
-LEAN_MODULES = ["IsoDT.Props.C03"]
+LEAN_MODULES = ["IsoDT.Props.C03", "IsoDT.Props.C03algo"]
 
 
 class CalOp(Op):
@@ -139,6 +139,76 @@ class DaysInMonthFlag(CalOp):
         if out != want:
             return "get_days_in_month(%d, %s) in %s = %s, definition says %s" % (
                 a[2], "leap" if a[1] else None, a[0], out, want)
+
+
+class QueryHistory(CalOp):
+    """The length queries asked in a row within one process, in a shuffled order: a month without a year (default
+    argument; also what a year-less truncated date asks), with the "leap" / None flags, and with the small years
+    0, 1, 2, 4 - Python compares cache keys with ==, and True == 1, False == 0 - plus year-length and leap queries
+    of the same years, each answer against the definition."""
+    name = "qhist"
+    model = False
+
+    def gen(self, rng, tier, boost):
+        for m in oracle.MODES:
+            for k in range(6 * boost):
+                yield (m, rng.getrandbits(32))
+
+    def label(self, a):
+        return "qhist/%s" % a[0]
+
+    def steps(self, a):
+        import random
+        rng = random.Random(a[1])
+        mo = rng.choice([2, 2, 2, 1, 12, rng.randint(1, 12)])
+        steps = [("dim", mo, "default"), ("dim", mo, "leap"), ("dim", mo, None), ("trunc", mo, None)]
+        for y in (0, 1, 2, 4, -1, 100, 400):
+            steps += [("dim", mo, y), ("diy", y, None), ("leap", y, None)]
+        rng.shuffle(steps)
+        return steps[:rng.randint(8, len(steps))]
+
+    def impl(self, a):
+        from metomi.isodatetime import data
+        m = a[0]
+        set_mode(m)
+        out = []
+        for kind, x, y in self.steps(a):
+            if kind == "dim" and y == "default":
+                out.append(str(data.get_days_in_month(x)))
+            elif kind == "dim":
+                out.append(str(data.get_days_in_month(x, y)))
+            elif kind == "diy":
+                out.append(str(data.get_days_in_year(x)))
+            elif kind == "leap":
+                out.append("1" if data.get_is_leap_year(x) else "0")
+            else:   # a year-less truncated date: its bounds check asks for the month's length without a year
+                last = max(oracle.month_tab(m, True)[x - 1], oracle.month_tab(m, False)[x - 1])
+                try:
+                    data.TimePoint(month_of_year=x, day_of_month=last, truncated=True)
+                    out.append("ok")
+                except ValueError:
+                    out.append("refused")
+        return " ".join(out)
+
+    def oracle(self, a, out):
+        m = a[0]
+        want = []
+        for kind, x, y in self.steps(a):
+            if kind == "dim" and y in ("default", "leap"):
+                want.append(str(oracle.month_tab(m, True)[x - 1]))
+            elif kind == "dim" and y is None:
+                want.append(str(oracle.month_tab(m, False)[x - 1]))
+            elif kind == "dim":
+                want.append(str(oracle.month_len(m, y, x)))
+            elif kind == "diy":
+                want.append(str(oracle.year_len(m, x)))
+            elif kind == "leap":
+                want.append("1" if oracle.leap("greg", x) else "0")
+            else:
+                want.append("ok")
+        if out != " ".join(want):
+            return "length queries %r in %s answered %s, the definition says %s" % (
+                self.steps(a), m, out, " ".join(want))
 
 
 class Range(CalOp):
@@ -446,7 +516,7 @@ class SpecQ(Op):
 
 
 def ops():
-    return [Leap(), DaysInYear(), DaysInMonth(), DaysInMonthFlag(), Range(), WeekStart(),
+    return [Leap(), DaysInYear(), DaysInMonth(), DaysInMonthFlag(), QueryHistory(), Range(), WeekStart(),
             OrdWeekStart(), WeeksInYear(),
             _conv("c2o", "c", "o")(), _conv("o2c", "o", "c")(), _conv("w2c", "w", "c")(),
             _conv("c2w", "c", "w")(), _conv("w2o", "w", "o")(), _conv("o2w", "o", "w")(),
